@@ -108,7 +108,68 @@ def ranges_of(cps):
     return [tuple(r) for r in out]
 
 
+_ub_cache = {}
+VAR_UB = {}  # variable name -> upper bound asserted when the variable was created
+
+
+def upper_bound(e, depth=0):
+    """a sound syntactic upper bound on the unsigned value of a bit-vector term"""
+    k = e.get_id()
+    hit = _ub_cache.get(k)
+    if hit is not None:
+        return hit[0]
+    w = e.size()
+    top = (1 << w) - 1
+    r = top
+    try:
+        if z3.is_bv_value(e):
+            r = e.as_long()
+        elif z3.is_const(e):
+            # a variable: only bounds registered at creation are used
+            r = min(top, VAR_UB.get(e.decl().name(), top))
+        elif depth < 12:
+            kind = e.decl().kind()
+            ch = e.children()
+            if kind == z3.Z3_OP_ITE:
+                r = max(upper_bound(ch[1], depth + 1), upper_bound(ch[2], depth + 1))
+            elif kind == z3.Z3_OP_ZERO_EXT:
+                r = upper_bound(ch[0], depth + 1)
+            elif kind == z3.Z3_OP_EXTRACT:
+                hi, lo = e.params()
+                r = min((1 << (hi - lo + 1)) - 1, upper_bound(ch[0], depth + 1) >> lo if lo == 0 else (1 << (hi - lo + 1)) - 1)
+            elif kind == z3.Z3_OP_BADD and len(ch) == 2:
+                a, b = upper_bound(ch[0], depth + 1), upper_bound(ch[1], depth + 1)
+                r = a + b if a + b <= top else top
+            elif kind == z3.Z3_OP_BAND:
+                r = min(upper_bound(c, depth + 1) for c in ch)
+            elif kind == z3.Z3_OP_BOR and len(ch) == 2:
+                a, b = upper_bound(ch[0], depth + 1), upper_bound(ch[1], depth + 1)
+                m = max(a, b)
+                r = min(top, (1 << m.bit_length()) - 1)
+            elif kind == z3.Z3_OP_CONCAT:
+                # zero-extension shows up as concat(0, x) after simplification
+                if all(z3.is_bv_value(c) and c.as_long() == 0 for c in ch[:-1]):
+                    r = upper_bound(ch[-1], depth + 1)
+    except Exception:
+        r = top
+    if len(_ub_cache) > 100000:
+        _ub_cache.clear()
+    _ub_cache[k] = (r, e)
+    return r
+
+
+def clip_ranges(ranges, ub):
+    out = []
+    for lo, hi in ranges:
+        if lo > ub:
+            break
+        out.append((lo, min(hi, ub)))
+    return out
+
+
 def in_ranges(e, ranges):
+    if len(ranges) > 8:
+        ranges = clip_ranges(ranges, upper_bound(e))
     ds = []
     for lo, hi in ranges:
         if lo == hi:
@@ -198,6 +259,7 @@ class SSeq:
                 maxcp = getattr(c, "max_cp", 0xFF)
             for e in elems:
                 c.solver.add(z3.ULE(e, maxcp))
+                VAR_UB[e.decl().name()] = maxcp
         n = z3.Int(f"{name}_len")
         c.solver.add(n >= minlen, n <= cap)
         c.model = None
